@@ -49,14 +49,15 @@ def normalise(version, met, ans):
     return None
 
 
-def task(vkey, all_metrics):
+def task(vkey, all_metrics, bound=None):
     chk = Check("C16")
     sess = Session()
     m, vc = sess.m, sess.vc
     vfloat, gver, prefix = VERSIONS[vkey]
     g_ = G.GRAMMARS[gver]
     label = "v%s %s" % (vkey, "all metrics" if all_metrics else "mandatory")
-    bound = 2 if C.tier() == "quick" else 3
+    if bound is None:
+        bound = 2 if C.tier() == "quick" else 3
     sess.it.while_bound = bound
     imod = sess.load("cvss.interactive")
     mod = sess.load("cvss")
@@ -209,7 +210,8 @@ def task(vkey, all_metrics):
 def c08_tasks():
     """the interactive builder's result is one of the emitted strings of C08: the same sessions
     (they check acceptance by the class and the official pattern among other things)"""
-    return [("task", (v, a)) for v in ("2", "3.0", "3.1", "4.0") for a in (False, True)]
+    # (retry bound 2 in both tiers: the deeper bound of the thorough tier is C16's business)
+    return [("task", (v, a, 2)) for v in ("2", "3.0", "3.1", "4.0") for a in (False, True)]
 
 
 def main():
